@@ -215,9 +215,10 @@ def _finish(entries, pre, why="", rule="ok"):
         if old is None:
             continue
         if s["type"] == "file" and old["type"] in ("file", "link"):
-            if old["type"] == "link":
-                return _res("unspecified", "file installed over an existing image symlink", "collision")
+            # like install(1): whatever non-directory is at the destination is replaced, a symlink is never followed
             continue
+        if s["type"] == "link" and "target" in s and old["type"] == "link" and not s.get("src_dirlink"):
+            continue  # a symlink copied by doins replaces the symlink that is there
         if s["type"] in ("dir", "keepdir") and old["type"] == "dir":
             continue
         return _res("unspecified", "destination %r collides with an existing %s" % (p, old["type"]), "collision")
@@ -228,7 +229,10 @@ def _finish(entries, pre, why="", rule="ok"):
             return _res("unspecified", "parent %r exists and is not a directory" % p, "collision")
         if p in entries and entries[p]["type"] not in ("dir", "keepdir"):
             return _res("unspecified", "request installs both %r and something below it" % p, "collision")
-    return _res("ok", why, rule, entries, sorted(parents - set(entries)))
+    out = _res("ok", why, rule, entries, sorted(parents - set(entries)))
+    # destinations that currently hold a symlink (dangling or not): replaced, never written through
+    out["replaces_links"] = sorted(p for p in entries if pre.get(p, {}).get("type") == "link")
+    return out
 
 
 # ---------------------------------------------------------------------------------------------------------
@@ -394,8 +398,10 @@ def model(req, tree, cwd, pre, P, quirks=(), umask=0o022):
                             return _res("unspecified", "symlink inside a recursed directory for %s/EAPI %d" % (h, e))
                         if fo["preserve"] or fo["uid"] is not None or fo["gid"] is not None:
                             return _res("unspecified", "install options applied to a symlink")
-                        put(d, {"type": "link", "target": sub["target"]})
-                        if _follow(T, k) is None:
+                        ft = _follow(T, k)
+                        put(d, {"type": "link", "target": sub["target"],
+                                "src_dirlink": ft is not None and T.get(ft)["type"] == "dir"})
+                        if ft is None:
                             rule = "recursive-dangling-symlink"
                     else:
                         if h == "dohtml" and "html-no-filter-in-dirs" not in quirks \
